@@ -372,7 +372,11 @@ def rep(rng, K, P, force=None):
             # what P - P leaves behind: (rho^2, -rho^3, 0)
             rho = K.rand(rng)
             return 'O:(rho^2,-rho^3,0)', jac_raw(K, K.mul(rho, rho), K.neg(K.mul(rho, K.mul(rho, rho))), K.zero)
-        return 'O:(x,y,0)', jac_raw(K, K.rand(rng), K.rand(rng), K.zero)
+        if c < 0.85:
+            return 'O:(x,y,0)', jac_raw(K, K.rand(rng), K.rand(rng), K.zero)
+        # an identity whose raw x, y are the coordinates of a genuine point (e.g. a point with its z overwritten by 0)
+        Pt = pt_mul(K, rng.randrange(1, r), P1 if K is K1 else P2)
+        return 'O:(px,py,0)', jac_raw(K, Pt[0], Pt[1], K.zero)
     if c < 0.35:
         return 'z=1', jac(K, P)
     if c < 0.45:
@@ -448,6 +452,15 @@ def gen_group_ops(rng, n, which):
                 if c < 0.4:
                     rb, tb = rep(rng, K, A)
                     rel = 'same-point'
+                elif c < 0.52 and A is not None:
+                    # same raw X and Y, different Z: (X, Y, -Z) is -A, (X, Y, wZ) with w^3 = 1 is the point (w x, y)
+                    lam = nonzero(rng, K) if rng.random() < 0.6 else K.one
+                    l2 = K.mul(lam, lam)
+                    X, Y = K.mul(A[0], l2), K.mul(A[1], K.mul(l2, lam))
+                    w = K.of(rng.choice([q - 1, BETA, BETA * BETA % q]))
+                    ra, ta = 'raw', jac_raw(K, X, Y, lam)
+                    rb, tb = 'raw-xy-equal', jac_raw(K, X, Y, K.mul(w, lam))
+                    rel = 'same-raw-xy'
                 out.append((f'{g}.eq:{rel}:{ra}/{rb}', f'{g}.eq {ta} {tb}'))
             else:
                 out.append((f'{g}.{op}:{ra}', f'{g}.{op} {ta}'))
